@@ -20,6 +20,13 @@
 //!   reusing the id of an in-flight call / in-flight forward (must be refused, write nothing, leave the in-flight
 //!   call's response alone), with never-used ids, id 0, and ids of completed calls (must work) (`run_fwd`, `judge_fwd`).
 //!
+//! * `reuse-window` (c04_window.rs): the AsyncClient reader is parked with a probe gate between "pending entry taken
+//!   out of the map" and "response handed to the caller"; a second `forward_message*` registers the SAME caller-chosen
+//!   id in that window. Both must return their own tokens, bystanders too; control: sequential reuse.
+//! * `no-subscriber` (c04_nosub.rs): the WebSocket client has NO live notify subscriber (never subscribed,
+//!   unsubscribed, receiver dropped) while pushes with in-flight ids, id 0 and unknown ids arrive before the real
+//!   responses of several in-flight calls; the same scripts for the TCP clients (no subscriber API).
+//!
 //! The verdict is computed offline over the recorded history of a scenario (`judge`).
 
 use crate::common::*;
@@ -47,7 +54,7 @@ mod imp {
     use std::io::{Read, Write};
     use std::os::fd::AsRawFd;
     use std::sync::atomic::{AtomicBool, AtomicU64, Ordering};
-    use std::sync::{Arc, Mutex, mpsc};
+    use std::sync::{Arc, Condvar, Mutex, mpsc};
     use std::time::{Duration, Instant};
     use tokio::runtime::Runtime;
     use tokio_tungstenite::WebSocketStream;
@@ -102,6 +109,9 @@ mod imp {
         }
         PROBE_HITS[code as usize].fetch_add(1, Ordering::Relaxed);
         LOG.lock().unwrap_or_else(|e| e.into_inner()).push((code, id));
+        if GATE_ARMED.load(Ordering::Acquire) {
+            gate_pass(code, id);
+        }
         if id >= SENT_BASE {
             if code == P_RECEIVED {
                 SENTINEL_SEEN.store(id, Ordering::SeqCst);
@@ -127,6 +137,99 @@ mod imp {
                 _ => {}
             }
         }
+    }
+
+    // ------------------------------------------------------------------ probe gate (one at a time)
+    //
+    // Forces an order: the thread that reaches the armed (point, id) parks inside the probe callback until the
+    // harness releases it (bounded by GATE_MAX, so nothing can hang). Used by the `reuse-window` family to hold
+    // the AsyncClient reader between "entry taken out of the pending map" and "response handed to the caller".
+
+    const GATE_MAX: Duration = Duration::from_secs(10);
+
+    struct GateSt {
+        armed: Option<(u8, u64)>,
+        parked: bool,
+        released: bool,
+        /// incremented by every arming: a thread still parked for an earlier arming leaves
+        generation: u64,
+        parks: u64,
+        timeouts: u64,
+    }
+    static GATE_ARMED: AtomicBool = AtomicBool::new(false);
+    static GATE: Mutex<GateSt> = Mutex::new(GateSt { armed: None, parked: false, released: false, generation: 0, parks: 0, timeouts: 0 });
+    static GATE_CV: Condvar = Condvar::new();
+
+    fn gate() -> std::sync::MutexGuard<'static, GateSt> {
+        GATE.lock().unwrap_or_else(|e| e.into_inner())
+    }
+
+    fn gate_pass(code: u8, id: u64) {
+        let mut g = gate();
+        if g.armed != Some((code, id)) || g.parked {
+            return;
+        }
+        g.parked = true;
+        g.parks += 1;
+        let my_gen = g.generation;
+        GATE_CV.notify_all();
+        let deadline = Instant::now() + GATE_MAX;
+        while !g.released && g.generation == my_gen {
+            let now = Instant::now();
+            if now >= deadline {
+                g.timeouts += 1;
+                break;
+            }
+            g = GATE_CV.wait_timeout(g, deadline - now).unwrap_or_else(|e| e.into_inner()).0;
+        }
+        // one passage per arming
+        if g.generation == my_gen {
+            g.armed = None;
+            GATE_ARMED.store(false, Ordering::Release);
+        }
+        GATE_CV.notify_all();
+    }
+
+    fn gate_arm(code: u8, id: u64) {
+        let mut g = gate();
+        g.generation += 1;
+        g.armed = Some((code, id));
+        g.parked = false;
+        g.released = false;
+        GATE_ARMED.store(true, Ordering::Release);
+        GATE_CV.notify_all();
+    }
+
+    /// true: a thread is parked at the armed point
+    fn gate_wait_parked(dur: Duration) -> bool {
+        let deadline = Instant::now() + dur;
+        let mut g = gate();
+        loop {
+            if g.parked && g.armed.is_some() {
+                return true;
+            }
+            let now = Instant::now();
+            if now >= deadline || g.armed.is_none() {
+                return false;
+            }
+            g = GATE_CV.wait_timeout(g, deadline - now).unwrap_or_else(|e| e.into_inner()).0;
+        }
+    }
+
+    /// Release whoever is parked and disarm (a thread that has not arrived yet will pass freely).
+    fn gate_release() {
+        let mut g = gate();
+        g.released = true;
+        if !g.parked {
+            g.armed = None;
+            GATE_ARMED.store(false, Ordering::Release);
+        }
+        GATE_CV.notify_all();
+    }
+
+    fn gate_stats() -> (u64, u64) {
+        let g = gate();
+        (g.parks, g.timeouts)
     }
 
     // ------------------------------------------------------------------ scenario description
@@ -193,6 +296,43 @@ mod imp {
         /// notify frame (notify=1) carrying the id of `slot`'s request (in flight when placed before
         /// Resp(slot)) or, with None, an id nobody issued. WebSocket client only.
         Notify(Option<usize>),
+        /// notify frame (notify=1) with id 0 (no call ever has it: the counters start at 1). Only scripted by the
+        /// no-subscriber family.
+        NotifyZero,
+    }
+
+    /// What the notify-subscriber side of the connection looks like while the scenario runs.
+    #[derive(Clone, Copy, PartialEq, Eq, Hash, Debug)]
+    enum Sub {
+        /// the families that existed first: WebSocket client with a live subscriber; no notify frames for TCP clients
+        Default,
+        /// WebSocket client on which `subscribe_notifies` was never called
+        Never,
+        /// subscribed, then `unsubscribe_notifies()`; the old receiver is kept alive (`true`) or dropped
+        Unsubscribed(bool),
+        /// subscribed, then the receiver was dropped (the slot still holds the stale sender until a push finds out)
+        ReceiverDropped,
+        /// blocking `Client` / `AsyncClient`: there is no subscriber API at all
+        NoApi,
+    }
+    impl Sub {
+        fn state(self) -> &'static str {
+            match self {
+                Sub::Default => "subscribed",
+                Sub::Never => "never-subscribed",
+                Sub::Unsubscribed(_) => "unsubscribed",
+                Sub::ReceiverDropped => "receiver-dropped",
+                Sub::NoApi => "no-subscriber-api",
+            }
+        }
+        /// connections are not shared between these classes
+        fn conn_class(self) -> u8 {
+            match self {
+                Sub::Default | Sub::NoApi => 0,
+                Sub::Never => 1,
+                Sub::Unsubscribed(_) | Sub::ReceiverDropped => 2,
+            }
+        }
     }
 
     #[derive(Clone, Debug)]
@@ -214,16 +354,17 @@ mod imp {
         wmode: u8,
         salt: u64,
         delays: bool,
+        sub: Sub,
     }
 
     impl Scn {
-        fn identity(&self) -> (Kind, Mode, usize, bool, Option<usize>, &[Step], &[Api], u8) {
-            (self.kind, self.mode, self.n, self.eager, self.arrival, &self.steps, &self.apis, self.wmode)
+        fn identity(&self) -> (Kind, Mode, usize, bool, Option<usize>, &[Step], &[Api], u8, Sub) {
+            (self.kind, self.mode, self.n, self.eager, self.arrival, &self.steps, &self.apis, self.wmode, self.sub)
         }
         fn to_json(&self, seed: u64) -> Value {
             json!({
                 "seed": seed, "family": self.family, "index": self.index, "client": self.kind.name(), "mode": self.mode.name(),
-                "n": self.n, "eager": self.eager, "arrival_window": self.arrival, "wmode": self.wmode, "delays": self.delays, "salt": self.salt,
+                "n": self.n, "eager": self.eager, "subscriber": self.sub.state(), "arrival_window": self.arrival, "wmode": self.wmode, "delays": self.delays, "salt": self.salt,
                 "steps": self.steps.iter().take(80).map(|s| format!("{s:?}")).collect::<Vec<_>>(),
                 "apis": self.apis.iter().take(70).map(|s| format!("{s:?}")).collect::<Vec<_>>(),
             })
@@ -546,9 +687,14 @@ mod imp {
     }
 
     fn connect_retry(kind: Kind, rt: &Runtime) -> Result<Conn, String> {
+        connect_retry_opt(kind, rt, true)
+    }
+
+    /// `subscribe`: attach a notify subscriber right away (WebSocket client only)
+    fn connect_retry_opt(kind: Kind, rt: &Runtime, subscribe: bool) -> Result<Conn, String> {
         let mut last = String::new();
         for attempt in 0..40 {
-            match connect(kind, rt) {
+            match connect(kind, rt, subscribe) {
                 Ok(c) => return Ok(c),
                 Err(e) => last = e,
             }
@@ -558,7 +704,7 @@ mod imp {
         Err(last)
     }
 
-    fn connect(kind: Kind, rt: &Runtime) -> Result<Conn, String> {
+    fn connect(kind: Kind, rt: &Runtime, subscribe: bool) -> Result<Conn, String> {
         let (cli, srv, sub) = match kind {
             Kind::B | Kind::A => {
                 let l = bind_loopback()?;
@@ -589,8 +735,8 @@ mod imp {
                     let (a, c) = tokio::time::timeout(Duration::from_secs(10), async { tokio::join!(acc, con) }).await.map_err(|_| "websocket connect timed out".to_string())?;
                     Ok::<_, String>((a?, c?))
                 })?;
-                let sub = cli.subscribe_notifies().map_err(|_| "subscribe_notifies refused on a fresh client".to_string())?;
-                (Cli::W(cli), Srv::Ws { ws: Box::new(ws) }, Some(sub))
+                let sub = if subscribe { Some(cli.subscribe_notifies().map_err(|_| "subscribe_notifies refused on a fresh client".to_string())?) } else { None };
+                (Cli::W(cli), Srv::Ws { ws: Box::new(ws) }, sub)
             }
         };
         Ok(Conn { kind, cli, srv, sub, ids_seen: HashSet::new(), max_id: 0, past_ids: vec![], scenarios: 0, requests: 0 })
@@ -984,6 +1130,12 @@ mod imp {
                     out.push(mk_frame(id, true, b"/c04/push", &json!({"id": id, "seq": seq, "tok": format!("ntf-{seq}"), "k": "notify"})));
                     hist.sent.push(Sent { step: *step, id, notify: true, seq, inflight });
                 }
+                Step::NotifyZero => {
+                    ctx.notify_seq += 1;
+                    let seq = ctx.notify_seq;
+                    out.push(mk_frame(0, true, b"/c04/push", &json!({"id": 0, "seq": seq, "tok": format!("ntf-{seq}"), "k": "notify"})));
+                    hist.sent.push(Sent { step: *step, id: 0, notify: true, seq, inflight: false });
+                }
             }
             if scn.eager && rng.coin() {
                 conn.srv.send(ctx.rt, &mut out, scn.wmode, rng)?;
@@ -1146,6 +1298,9 @@ mod imp {
         ok_calls: u64,
         timeouts: u64,
         anomalies: bool,
+        /// TCP clients only (no subscriber API, behaviour unspecified): calls that returned a pushed frame carrying
+        /// their own in-flight id
+        tcp_push_taken: u64,
     }
 
     fn judge(scn: &Scn, h: &Hist, stall_ms: u64) -> Verdict {
@@ -1292,6 +1447,21 @@ mod imp {
                         v.ok_calls += 1;
                         continue;
                     }
+                    let is_push = kk == "notify" || matches!(hdr, Some((_, nf, _)) if *nf != 0);
+                    if is_push && scn.sub != Sub::Default {
+                        let hdr_own = hdr.map(|(hid, _, _)| Some(hid) == own).unwrap_or(true);
+                        let pushed_with_own_id = own.map(|id| h.sent.iter().any(|s| s.notify && s.id == id && s.inflight)).unwrap_or(false);
+                        let _ = hdr_own;
+                        v.anomalies = true;
+                        // the statement names all three clients: a frame with the notify flag set is a notification, never "the response
+                        // whose id equals its own request's id". The TCP clients have no subscriber API, so a push goes to nobody.
+                        let sig = if scn.sub == Sub::NoApi { format!("C04:{k}:no-subscriber-api:push-{}-delivered-to-call", if pushed_with_own_id { "reusing-in-flight-id" } else { "with-other-id" }) } else { format!("C04:{k}:no-subscriber:{}:push-delivered-to-call", scn.sub.state()) };
+                        v.violations.push((
+                            sig,
+                            format!("{who} returned header {hdr:?} body {body}: a pushed frame (notify != 0){} while the client had no live notify subscriber (state: {}); the push must be dropped and the call must return its own response; server sent: {}", if pushed_with_own_id { " reusing its in-flight id" } else { "" }, scn.sub.state(), show_sent(h)),
+                        ));
+                        continue;
+                    }
                     v.anomalies = true;
                     let what = match kk {
                         "notify" => "notify-frame-satisfied-call".to_string(),
@@ -1312,7 +1482,13 @@ mod imp {
         }
 
         // notify stream: WebSocket subscriber gets exactly the notify frames, in order
-        if scn.kind == Kind::W {
+        if scn.kind == Kind::W && scn.sub != Sub::Default {
+            // no live subscriber: a receiver that was unsubscribed must not see anything
+            for (id, nf, body) in &h.sub_items {
+                v.anomalies = true;
+                v.violations.push((format!("C04:ws:no-subscriber:{}:push-reached-old-receiver", scn.sub.state()), format!("a receiver that is no longer subscribed received a frame with id {id}, notify flag {nf}, body {body}")));
+            }
+        } else if scn.kind == Kind::W {
             let want: Vec<u64> = h.sent.iter().filter(|s| s.notify).map(|s| s.seq).collect();
             let mut got: Vec<u64> = vec![];
             for (id, nf, body) in &h.sub_items {
@@ -1341,7 +1517,7 @@ mod imp {
                     v.inconclusive.push(format!("ws: subscriber got {got:?} of {want:?} on an unhealthy connection"));
                 }
             }
-        } else if h.sent.iter().any(|s| s.notify) {
+        } else if h.sent.iter().any(|s| s.notify) && scn.sub != Sub::NoApi {
             v.inconclusive.push("harness bug: notify frame scripted for a TCP client".into());
         }
         if !h.sentinel_seen && h.trouble.is_none() && v.violations.is_empty() && v.timeouts == 0 {
@@ -1600,7 +1776,14 @@ mod imp {
                         continue;
                     }
                 }
-                // one read attempt (the socket's read timeout is 2 ms on this connection)
+                self.read_one()?;
+            }
+        }
+
+        /// One read attempt on the fake server's side (the socket's read timeout is 2 ms on this connection); a
+        /// request frame that arrived is booked into the history.
+        fn read_one(&mut self) -> Result<(), String> {
+            {
                 if let Some(f) = self.conn.srv.recv(self.ctx.rt, Instant::now())? {
                     self.conn.requests += 1;
                     let v: Option<Value> = serde_json::from_slice(&f.body).ok();
@@ -1619,6 +1802,7 @@ mod imp {
                     }
                 }
             }
+            Ok(())
         }
 
         /// Answer every (non-notify) wire frame of the given ops, in a shuffled order.
@@ -2202,7 +2386,7 @@ mod imp {
             _ => 1 + rng.usize_below(n.min(24)),
         };
         add_extras(&mut steps, kind, &call_slots, extras, rng);
-        Scn { family: "random", index, kind, mode, n, eager: rng.chance(2, 5), arrival: None, steps, apis, wmode: rng.below(3) as u8, salt: rng.next_u64(), delays: rng.chance(4, 5) }
+        Scn { family: "random", index, kind, mode, n, eager: rng.chance(2, 5), arrival: None, steps, apis, wmode: rng.below(3) as u8, salt: rng.next_u64(), delays: rng.chance(4, 5), sub: Sub::Default }
     }
 
     /// Sizes above the blocking client's batch worker pool (64): more requests than workers, so every worker
@@ -2227,7 +2411,7 @@ mod imp {
         } else {
             (Some(*rng.pick(&[1usize, 2, 3, 4, 8, 16, 24, 48])), vec![], true)
         };
-        Scn { family: "bigbatch", index, kind, mode: Mode::Batch, n, eager, arrival, steps, apis, wmode: rng.below(3) as u8, salt: rng.next_u64(), delays: rng.chance(2, 3) }
+        Scn { family: "bigbatch", index, kind, mode: Mode::Batch, n, eager, arrival, steps, apis, wmode: rng.below(3) as u8, salt: rng.next_u64(), delays: rng.chance(2, 3), sub: Sub::Default }
     }
 
     // ------------------------------------------------------------------ stderr silencing
@@ -2267,7 +2451,7 @@ mod imp {
     struct Stage<'a> {
         rep: Report,
         ctx: Ctx<'a>,
-        conns: HashMap<Kind, Conn>,
+        conns: HashMap<(Kind, u8), Conn>,
         hb: Heartbeat,
         il_full: HashSet<u64>,
         il_caller: HashSet<u64>,
@@ -2285,6 +2469,9 @@ mod imp {
         fwd_conn: Option<Conn>,
         fwd_anomalies: u64,
         fwd_enough: bool,
+        /// dedicated AsyncClient connection of the reuse-window cases (c04_window.rs)
+        win_conn: Option<Conn>,
+        win_anomalies: u64,
     }
 
     impl<'a> Stage<'a> {
@@ -2426,16 +2613,17 @@ mod imp {
                 return false;
             }
             // connection: reuse, replace every 300 scenarios
-            let reuse = self.conns.get(&scn.kind).map(|c| c.scenarios < 300).unwrap_or(false);
+            let ckey = (scn.kind, scn.sub.conn_class());
+            let reuse = self.conns.get(&ckey).map(|c| c.scenarios < 300).unwrap_or(false);
             if !reuse {
-                if let Some(old) = self.conns.remove(&scn.kind) {
+                if let Some(old) = self.conns.remove(&ckey) {
                     self.rep.count("connections_closed_after_reuse", 1);
                     drop_conn(old, self.ctx.rt);
                 }
-                match connect_retry(scn.kind, self.ctx.rt) {
+                match connect_retry_opt(scn.kind, self.ctx.rt, ckey.1 == 0) {
                     Ok(c) => {
-                        self.rep.count(&format!("connections_{}", scn.kind.name()), 1);
-                        self.conns.insert(scn.kind, c);
+                        self.rep.count(&format!("connections_{}{}", scn.kind.name(), if ckey.1 == 0 { "" } else { "_without_subscriber" }), 1);
+                        self.conns.insert(ckey, c);
                     }
                     Err(e) => {
                         self.connect_failures += 1;
@@ -2447,7 +2635,12 @@ mod imp {
                     }
                 }
             }
-            let mut conn = self.conns.remove(&scn.kind).unwrap();
+            let mut conn = self.conns.remove(&ckey).unwrap();
+            if let Err(e) = nosub::prepare_sub(&mut conn, scn.sub) {
+                self.rep.inconclusive(format!("could not put the WebSocket client into the `{}` state: {e}", scn.sub.state()));
+                drop_conn(conn, self.ctx.rt);
+                return true;
+            }
             let t0 = Instant::now();
             self.hb.reset();
             let hist = run_scn(&mut conn, &mut self.ctx, scn);
@@ -2464,6 +2657,14 @@ mod imp {
             rep.count("requests_seen_by_fake_server", hist.reqs.len() as u64);
             rep.count("calls_returned_own_response", v.ok_calls);
             rep.count("frames_sent_by_fake_server", hist.sent.len() as u64 + 1);
+            if scn.sub != Sub::Default {
+                let st = scn.sub.state().replace('-', "_");
+                rep.count(&format!("nosub_scenarios_{k}_{st}"), 1);
+                rep.count(&format!("nosub_calls_returned_own_response_{k}_{st}"), v.ok_calls);
+                if v.tcp_push_taken > 0 {
+                    rep.count(&format!("nosub_tcp_calls_that_returned_a_push_carrying_their_own_id_{k}"), v.tcp_push_taken);
+                }
+            }
             for s in &hist.sent {
                 match s.step {
                     Step::Resp(_) => {}
@@ -2472,8 +2673,17 @@ mod imp {
                     Step::Unknown(Unk::Past) => rep.count("injected_unknown_id_past", 1),
                     Step::Unknown(Unk::Alias32(_)) => rep.count("injected_unknown_id_aliasing_inflight_low32", 1),
                     Step::Unknown(_) => rep.count("injected_unknown_id_other", 1),
+                    Step::Notify(_) | Step::NotifyZero if scn.sub != Sub::Default => {
+                        let what = match s.step {
+                            Step::NotifyZero => "id_zero",
+                            Step::Notify(None) => "unknown_id",
+                            _ if s.inflight => "inflight_id",
+                            _ => "completed_id",
+                        };
+                        rep.count(&format!("nosub_pushes_sent_{}_{}_{what}", k, scn.sub.state().replace('-', "_")), 1);
+                    }
                     Step::Notify(_) if s.inflight => rep.count("injected_notify_reusing_inflight_id", 1),
-                    Step::Notify(_) => rep.count("injected_notify_other_id", 1),
+                    Step::Notify(_) | Step::NotifyZero => rep.count("injected_notify_other_id", 1),
                 }
             }
             rep.count("notifies_received_by_subscriber", hist.sub_items.len() as u64);
@@ -2528,7 +2738,7 @@ mod imp {
                 self.rep.count("connections_abandoned_after_anomaly", 1);
                 drop_conn(conn, self.ctx.rt);
             } else {
-                self.conns.insert(scn.kind, conn);
+                self.conns.insert(ckey, conn);
             }
             if self.timeouts >= 3 {
                 self.stop = Some("three calls did not return inside the window; stopping early".into());
@@ -2540,6 +2750,15 @@ mod imp {
         }
     }
 
+    // helper files of this module (children of `imp`, so they see its private items). A `#[path]` inside an inline
+    // module resolves relative to the non-existent directory src/c04/imp/, hence `include!`.
+    mod window {
+        include!("c04_window.rs");
+    }
+    mod nosub {
+        include!("c04_nosub.rs");
+    }
+
     pub fn run(args: &Args) -> Report {
         let rep = Report::new(
             args,
@@ -2549,7 +2768,12 @@ mod imp {
              N=64 with unknown-id (zero, huge, future, past) frames, duplicated responses, eager replies, split/coalesced writes and, \
              WebSocket only, notify frames reusing in-flight ids with a subscriber attached; seeded delays at the verif-hooks probes; \
              oracle: returned token/id == own, batch positional, ids distinct per connection, subscriber gets exactly the notify \
-             frames in order; batches of 65..300 requests (more than the blocking client's 64 batch workers) against an              arrival-driven server, positional alignment and result count; AsyncClient::forward_message* with caller-chosen ids:              an id equal to an in-flight id is refused, writes nothing and leaves the in-flight call its own response, unused and              completed ids work, in-flight ids on the wire stay distinct; distinct = reply scripts + probe-order interleavings",
+             frames in order; batches of 65..300 requests (more than the blocking client's 64 batch workers) against an              arrival-driven server, positional alignment and result count; AsyncClient::forward_message* with caller-chosen ids:              an id equal to an in-flight id is refused, writes nothing and leaves the in-flight call its own response, unused and              completed ids work, in-flight ids on the wire stay distinct; \
+             reuse-window: the AsyncClient reader is parked (probe gate) between taking a call's pending entry and handing the response over, a second \
+             forward registers the SAME id in that window: both return their own tokens, bystanders too (control: sequential reuse); \
+             no-subscriber: WebSocket client never subscribed / unsubscribed / receiver dropped, pushes with in-flight ids, id 0, unknown ids before \
+             the real responses must be dropped, every call returns its own response (TCP clients: what they return carries their own id); \
+             distinct = reply scripts + probe-order interleavings",
         );
         let rt = match tokio::runtime::Builder::new_multi_thread().worker_threads(4).enable_all().thread_name("c04-rt").build() {
             Ok(rt) => rt,
@@ -2584,6 +2808,8 @@ mod imp {
             fwd_conn: None,
             fwd_anomalies: 0,
             fwd_enough: false,
+            win_conn: None,
+            win_anomalies: 0,
         };
         // --replay <file with the replay JSON of a violation>: regenerate the same scenarios from the seed and
         // execute only the recorded one, 400 times with different delay salts
@@ -2591,7 +2817,7 @@ mod imp {
             let v: Option<Value> = std::fs::read_to_string(path).ok().and_then(|t| serde_json::from_str(&t).ok());
             match v.as_ref().and_then(|v| Some((v.get("family")?.as_str()?.to_string(), v.get("index")?.as_u64()?, v.get("seed")?.as_u64()?))) {
                 Some((fam, idx, seed)) if seed == args.seed => {
-                    let fam = ["perm6", "perm6+extras", "random", "bigbatch", "forward"].into_iter().find(|f| *f == fam).unwrap_or("random");
+                    let fam = ["perm6", "perm6+extras", "random", "bigbatch", "forward", "reuse-window", "no-subscriber"].into_iter().find(|f| *f == fam).unwrap_or("random");
                     st.only = Some((fam, idx));
                     st.rep.set("replay_of", json!({"family": fam, "index": idx}));
                 }
@@ -2664,6 +2890,16 @@ mod imp {
         }
         st.rep.set("wall_ms_family_forward", json!(t_family.elapsed().as_millis() as u64));
 
+        // (0c) a caller-chosen id registered again while the reader is parked between match and deliver
+        let t_family = Instant::now();
+        window::run_family(&mut st, args, &mut index);
+        st.rep.set("wall_ms_family_reuse_window", json!(t_family.elapsed().as_millis() as u64));
+
+        // (0d) pushes (in-flight ids, id 0, unknown ids) while the client has no live notify subscriber
+        let t_family = Instant::now();
+        nosub::run_family(&mut st, args, &mut index);
+        st.rep.set("wall_ms_family_no_subscriber", json!(t_family.elapsed().as_millis() as u64));
+
         // (a) exhaustive: every reply order for 6 concurrent calls, each client kind, calls and batch
         let reps = args.budget(2, 20).max(1);
         let mut perm_done: HashMap<String, u64> = HashMap::new();
@@ -2681,7 +2917,7 @@ mod imp {
                             let extras = r.usize_below(4);
                             add_extras(&mut steps, kind, &[0, 1, 2, 3, 4, 5], extras, &mut r);
                         }
-                        let scn = Scn { family: if rep_i == 0 { "perm6" } else { "perm6+extras" }, index, kind, mode, n: 6, eager, arrival: None, steps, apis, wmode, salt: r.next_u64(), delays: rep_i > 0 || r.coin() };
+                        let scn = Scn { family: if rep_i == 0 { "perm6" } else { "perm6+extras" }, index, kind, mode, n: 6, eager, arrival: None, steps, apis, wmode, salt: r.next_u64(), delays: rep_i > 0 || r.coin(), sub: Sub::Default };
                         if !st.exec(&scn) {
                             break 'outer;
                         }
